@@ -77,6 +77,11 @@ impl<'a, T: Read + Write + Seek> PointCloudWriter<'a, T> {
         // Prepare byte stream buffers
         let byte_streams = vec![ByteStreamWriteBuffer::new(); prototype.len()];
 
+        // An earlier section that failed part way can leave the writer on an unaligned offset
+        writer
+            .align()
+            .write_err("Failed to align writer on next 4-byte offset before writing point cloud section")?;
+
         // Write preliminary section header with incomplete length and wrong offsets
         let mut section_header = CompressedVectorSectionHeader::default();
         let section_offset = writer.physical_position()?;
